@@ -287,11 +287,22 @@ func (s *Session) setStorageCallbacks() {
 			return true
 		}
 
-		resendMessages, err := s.messageStorage.Messages(fix.StorageID{
+		storageID := fix.StorageID{
 			Sender: s.LogonSettings.SenderCompID,
 			Target: s.LogonSettings.TargetCompID,
 			Side:   fix.Outgoing,
-		}, resendMsg.BeginSeqNo(), resendMsg.EndSeqNo())
+		}
+
+		endSeqNo := resendMsg.EndSeqNo()
+		if endSeqNo == 0 {
+			// EndSeqNo=0 requests everything up to the last message sent.
+			endSeqNo, err = s.counter.GetCurrSeqNum(storageID)
+			if err != nil {
+				return true
+			}
+		}
+
+		resendMessages, err := s.messageStorage.Messages(storageID, resendMsg.BeginSeqNo(), endSeqNo)
 		if err != nil {
 			return true
 		}
